@@ -10,7 +10,8 @@ Result of a function: `sres T` (Lib/PySrc.v): `return e` -> SRet e; an exception
 Vocabulary: Model/TagsPy.v (is_safestr is_bytes content py_str text_eqb nonempty or_else dict_get smap), Lib/PySrc.v (sbind1),
 and from Model/Tags.v only the type `arg`, in_range and join.  str / bytes = list N (code points / byte values).
 
-Interface (table SPEC: signature text that must match, kinds of the parameters, kind returned).  Kinds: str, bytes, bool,
+Interface (table SPEC: signature that must match up to the names of positional / starred parameters, kinds of the
+parameters, kind returned).  Kinds: str, bytes, bool,
 obj (a value handed to _escape: Model/Tags.v `arg`; obj:safestr / obj:bytes after a positive isinstance test), objs (tuple of
 obj: *args), kwobjs (**kwargs: list of (name, obj), names distinct), strs, kwstrs, colour (a terminal.colors value, abstract
 type C), pair (2-tuple of str), optbytes (None or bytes), enum:E (a member of E, represented by its .value), truth.
@@ -42,9 +43,11 @@ Expressions.
 Calls that may raise are hoisted, in evaluation order, in front of the statement as `sbind1 CALL (fun tN => ..)` (expressions
   are otherwise pure; such a call is rejected under `or` and inside dict values, where evaluation is conditional / eager):
   f(args) for a translated f (_escape, self.get_priority(), self.get_colors(), terminal.attr_fg(n), terminal.attr_reset());
-  x.decode();  t.format(*a, **k);  D[x];  map(f, l) and [e for v in l] -> smap (fun v => ..) l;
+  x.decode();  t.format(*a, **k);  D[x];  [e for v in l] -> smap (fun v => ..) l;  map(f, l) likewise, but only directly as
+  the argument of str.join (a map object is a one-shot lazy iterator: it may not be stored);
   {k: e for k, v in d.items()} -> smap over the pairs of d.
 Statements.  v = e, a = b = e, (a, b) = e (e a pair), v += e -> let;  V = <enum> only records the alias;
+  D = {..} / D = dict(..) only records the (pure) display, which is translated where D[x] is used;
   if / elif / else -> if c then (A; rest) else (B; rest) (rest duplicated; after `if isinstance(v, K):` v has kind obj:K in A);
   return e.  Anything else raises.
 NOT translated (tied by the harness correspondence only): the regex of terminal._strip_delay and terminal.initialize; the Tag
@@ -52,6 +55,7 @@ NOT translated (tied by the harness correspondence only): the regex of terminal.
 """
 import ast
 import os
+import re
 import string
 
 REPO = os.environ.get('VERIF_REPO') or '/repo'
@@ -162,7 +166,7 @@ class Fn:
         if isinstance(e, ast.Constant) and type(e.value) in (str, bytes):
             return (lit(e.value), 'str' if type(e.value) is str else 'bytes')
         if isinstance(e, ast.Name):
-            if e.id in env:
+            if e.id in env and env[e.id][1] != 'dictexpr':
                 return env[e.id]
             if e.id in ENUMS and self.mod == 'tags':
                 return ('', 'enumcls:' + e.id)
@@ -223,7 +227,9 @@ class Fn:
         bad(e, 'truth value of ' + k)
 
     def subscript(self, e, env):
-        v, s = e.value, e.slice
+        v, s, denv = e.value, e.slice, env
+        if isinstance(v, ast.Name) and env.get(v.id, ('', ''))[1] == 'dictexpr':      # D = {..}; ..; D[x]
+            v, denv = env[v.id][0], env[v.id][2]
         if isinstance(s, ast.Slice):
             if ast.unparse(s) == '1:':
                 return ('(tl %s)' % self.as_str(v, env), 'str')
@@ -234,13 +240,13 @@ class Fn:
                 return ('(if %s then %s else %s)' % (c, lit(v.value[1]), lit(v.value[0])), 'str')
             bad(e, 'index of kind ' + k)
         if isinstance(v, ast.Dict) and v.keys and all(k is not None for k in v.keys):
-            keys, eqb = [self.pure(k, env) for k in v.keys], 'src_enum_eq'
+            keys, eqb = [self.pure(k, denv) for k in v.keys], 'src_enum_eq'
             if len({k for _, k in keys}) != 1 or not keys[0][1].startswith('enum:') or len({t for t, _ in keys}) != len(keys):
                 bad(v, 'dict keys must be distinct members of one enum')
-            vals = [self.pure(x, env) for x in v.values]
-        elif isinstance(v, ast.Call) and ast.unparse(v.func) == 'dict' and 'dict' not in env and not v.args and v.keywords and all(k.arg for k in v.keywords):
+            vals = [self.pure(x, denv) for x in v.values]
+        elif isinstance(v, ast.Call) and ast.unparse(v.func) == 'dict' and 'dict' not in denv and not v.args and v.keywords and all(k.arg for k in v.keywords):
             keys, eqb = [(lit(k.arg), 'str') for k in v.keywords], 'text_eqb'
-            vals = [self.pure(k.value, env) for k in v.keywords]
+            vals = [self.pure(k.value, denv) for k in v.keywords]
         else:
             bad(e, 'subscript')
         x, kx = self.ex(s, env)
@@ -303,12 +309,12 @@ class Fn:
         elif plain and len(args) == 2 and name == 'map':
             fn, (b, kb) = self.callee(args[0]), self.ex(args[1], env)
             if fn and list(fn.kinds.values()) == ['obj'] and fn.ret == 'str' and kb == 'objs' and args[0].id not in env:
-                return self.hoist('smap (fun x_ => %s) %s' % (self.apply(fn, ['x_']), b), 'strs')
+                return self.hoist('smap (fun x_ => %s) %s' % (self.apply(fn, ['x_']), b), 'iter')
         elif plain and len(args) == 2 and name in ('_curses.tparm', 'str.join'):
             (a, ka), (b, kb) = self.ex(args[0], env), self.ex(args[1], env)
             if name == '_curses.tparm' and self.mod == 'terminal' and (ka, kb) == ('bytes', 'colour'):
                 return ('(%s %s %s)' % (self.use('tparm'), a, b), 'bytes')
-            if name == 'str.join' and (ka, kb) == ('str', 'strs'):
+            if name == 'str.join' and ka == 'str' and kb in ('strs', 'iter'):
                 return ('(join %s %s)' % (a, b), 'str')
         if isinstance(f, ast.Attribute) and f.attr == 'decode' and not args and not kws:
             t, k = self.ex(f.value, env)
@@ -343,6 +349,9 @@ class Fn:
             return self.wrap(self.take(), 'SRet %s' % t)
         if isinstance(s, ast.AugAssign) and isinstance(s.target, ast.Name) and isinstance(s.op, ast.Add):
             s = ast.copy_location(ast.Assign([s.target], ast.BinOp(ast.Name(s.target.id, ast.Load()), s.op, s.value)), s)
+        if (isinstance(s, ast.Assign) and len(s.targets) == 1 and isinstance(s.targets[0], ast.Name) and s.targets[0].id != 'self'
+                and (isinstance(s.value, ast.Dict) or isinstance(s.value, ast.Call) and ast.unparse(s.value.func) == 'dict')):
+            return self.tr(rest, dict(env, **{s.targets[0].id: (s.value, 'dictexpr', env)}))     # only usable as D[x]: translated there
         if isinstance(s, ast.Assign):
             t, k = self.ex(s.value, env)
             p, tg = self.take(), s.targets[0]
@@ -367,9 +376,19 @@ class Fn:
             return self.wrap(p, 'if %s then\n%s\nelse\n%s' % (c, ind(self.tr(s.body + rest, envt)), ind(self.tr(s.orelse + rest, env))))
         bad(s, 'statement')
 
+    @staticmethod
+    def shape(a):
+        """(names of the positional / starred parameters, everything else of a signature).  Those names are free: every call site in
+        /repo passes them positionally; keyword-only parameters (color=False) are part of the shape."""
+        names = [x.arg for x in a.posonlyargs + a.args] + [x.arg for x in (a.vararg, a.kwarg) if x]
+        kwonly = ast.unparse(ast.arguments(posonlyargs=[], args=[], vararg=None, kwonlyargs=a.kwonlyargs, kw_defaults=a.kw_defaults, kwarg=None, defaults=[]))
+        return names, (len(a.posonlyargs), len(a.args), bool(a.vararg), bool(a.kwarg), kwonly, [ast.unparse(d) for d in a.defaults])
+
     def run(self):
-        if ast.unparse(self.fdef.args) != self.sig or self.fdef.decorator_list:
-            bad(self.fdef, 'signature (expected `%s`)' % self.sig)
+        (ref, want), (names, got) = self.shape(ast.parse('def f(%s): pass' % self.sig).body[0].args), self.shape(self.fdef.args)
+        if got != want or self.fdef.decorator_list or (ref[:1] == ['self']) != (names[:1] == ['self']) or len(set(names)) != len(names):
+            bad(self.fdef, 'signature (expected the shape of `%s`)' % self.sig)
+        self.kinds = {dict(zip(ref, names)).get(v, v): k for v, k in self.kinds.items()}
         for v in self.kinds:
             if v in ('self', 'terminal') or not v.isidentifier():
                 bad(self.fdef, 'parameter name')
@@ -422,7 +441,7 @@ def gen_enums(tags):
     body = [s for s in cls.body if not is_doc(s)]
     if sorted(getattr(s, 'name', '?') for s in body) != ['__eq__', '__hash__', '__lt__'] or not all(isinstance(s, ast.FunctionDef) for s in body):
         bad(cls, 'OrderedEnum must consist of __lt__, __eq__, __hash__')
-    out = []
+    out, found = [], {}
     for m in body:
         st = [s for s in m.body if not is_doc(s)]
         if m.decorator_list or ast.unparse(m.args) != ('self' if m.name == '__hash__' else 'self, other'):
@@ -446,8 +465,9 @@ def gen_enums(tags):
         names = [x.value for x in v.args[1].elts]
         if not names or len(set(names)) != len(names):
             bad(v, 'member names')
-        ENUMS[name] = names
+        found[name] = names
         out.append('(* %s = %s: member values 1.. in this order *)\nDefinition src_%s : list (list N) := [%s].' % (name, ast.unparse(v)[:60], name, '; '.join(lit(n) for n in names)))
+    ENUMS.update(found)
     return '\n'.join(out)
 
 
@@ -502,6 +522,15 @@ def main(emit):
         imp = [a for s in trees['tags'].body if isinstance(s, ast.ImportFrom) and s.module == 'lib' and s.level == 0 for a in s.names if a.name == 'terminal' and a.asname is None]
         one(imp, '`from lib import terminal`')
         one(binders(trees['tags'], 'terminal'), 'binding of terminal')
+        for t in trees.values():     # the builtins the rules give a meaning to are the builtins
+            for b in ('repr', 'str', 'bytes', 'isinstance', 'type', 'map', 'dict', 'functools', 'enum', 're'):
+                if [x for x in binders(t, b) if not (isinstance(x, ast.alias) and x.name == b and x.asname is None)]:
+                    raise Unsupported('the name %s is rebound' % b)
+        tag = top(trees['tags'], 'Tag', ast.ClassDef)     # self.severity / .certainty / .name are plain instance attributes
+        hooks = {'__getattr__', '__getattribute__', '__slots__', '__setattr__'} | set(SELF)
+        if tag.bases or tag.keywords or tag.decorator_list or any(getattr(x, 'name', None) in hooks or getattr(x, 'id', None) in hooks for st in tag.body for x in [st] + [
+                t for t in getattr(st, 'targets', [])]):
+            bad(tag, 'class Tag must be a plain class without attribute hooks')
         col = one((c for c in trees['terminal'].body if isinstance(c, ast.ClassDef) and c.name == 'colors'), 'class colors')
         COLORS.update(t.id for s in col.body if isinstance(s, ast.Assign) for t in s.targets if isinstance(t, ast.Name))
         return '(* terminal.colors has: %s *)' % ' '.join(sorted(COLORS))
@@ -518,12 +547,18 @@ def main(emit):
         return job
     jobs = [('src_sources', load), ('src_enum_lt src_enum_eq src_severities src_certainties', lambda: gen_enums(trees['tags'])),
             ('src_is_safe_char src_is_safe', lambda: gen_is_safe(trees['tags']))] + [(SPEC[p][2], fn(p)) for p in SPEC]
+    failed = set()
     for names, job in jobs:
         try:
-            out.append(job() + '\n')
+            text = job()
+            dead = failed & set(re.findall(r'\bsrc_\w+', text))
+            if dead:     # the generated file must always compile: a definition that mentions an untranslatable one is untranslatable
+                raise Unsupported('uses %s, which could not be translated' % ' '.join(sorted(dead)))
+            out.append(text + '\n')
         except (Unsupported, KeyError, ValueError, IndexError, AttributeError, TypeError, OSError, SyntaxError) as e:
             msg = '%s: %s: %s' % (names, type(e).__name__, e)
             errors.append(msg)
+            failed.update(names.split())
             out.append('(* NOT TRANSLATABLE - %s *)' % msg.replace('*)', '* )').replace('(*', '( *').replace('"', "'"))
             out += ['Definition %s : unit := tt.' % n for n in names.split()] + ['']
     emit('TagsSrc.v', '\n'.join(out))
